@@ -1130,6 +1130,9 @@ func (l *LineWrapper) wrapNextLine(config lineConfig) (done bool) {
 				return true
 			case truncated:
 				if !l.scratch.hasBest() {
+					// drop the whole runs appended while reaching this candidate:
+					// a line ending there could end inside a grapheme cluster
+					l.restore()
 					l.scratch.markCandidateBest()
 				}
 				return true
